@@ -450,17 +450,18 @@ Definition handle_success_controlled (cfg : config) (m : msg) (l r : cand) (src 
         end)
     end).
 
-(* controlledSelector.shouldAcceptNomination *)
+(* controlledSelector.shouldAcceptNomination: the decision is the GENERATED function (Gen/Lifecycle.v);
+   its side effect (remember the accepted value) is modelled here *)
 Definition accept_nomination (nv : option Z) (k : bool -> M) : M :=
-  match nv with
-  | None => k true
-  | Some v =>
-    with_state s_last_nom (fun ln =>
-      match ln with
-      | None => modify (set_s_last_nom (Some v)) ;; k true
-      | Some cur => if cur <? v then modify (set_s_last_nom (Some v)) ;; k true else k false
-      end)
-  end.
+  with_state s_last_nom (fun ln =>
+    let accepted := shouldAcceptNomination (match nv with Some _ => true | None => false end) (match nv with Some v => v | None => 0 end)
+                                           (match ln with Some _ => true | None => false end) (match ln with Some c => c | None => 0 end) in
+    if accepted then
+      match nv with
+      | Some v => modify (set_s_last_nom (Some v)) ;; k true
+      | None => k true
+      end
+    else k false).
 
 (* controlledSelector.HandleBindingRequest *)
 Definition handle_request_controlled (cfg : config) (m : msg) (l r : cand) : M :=
